@@ -2114,10 +2114,12 @@ def _helper_search(fn: Fn, co: Collections, call: ast.AST, bnames: set[str], par
                     fld = fld.value
                 if isinstance(fld, ast.Attribute) and _field_is_private_copy(fn, orig_call.func.value, h.cls, fld.attr):  # as written: a local that holds a set is shared
                     continue
-            if isinstance(root, ast.Name) and root.id in gp:
-                # a parameter itself re-bound locally to a fresh container first is a local
+            local_names = {n_.id for n_ in own_nodes(g.node) if isinstance(n_, ast.Name) and isinstance(n_.ctx, ast.Store)}
+            if isinstance(root, ast.Name) and (root.id in gp or root.id not in local_names):
+                # a parameter, or a variable of an enclosing scope (closure / module): the object is not made by this call.
+                # (a parameter re-bound locally to a fresh container first is a local)
                 defs = gfn.reaching(root.id, root) if parent(root) is not None else []
-                if isinstance(tgt, ast.Name) and defs and all(d.kind == "assign" for d in defs):
+                if root.id in gp and isinstance(tgt, ast.Name) and defs and all(d.kind == "assign" for d in defs):
                     continue
                 return "bad", f"the helper {g.qualname} that computes the value of a key changes `{norm(tgt, 50)}` (`{header(stmt_of(x))[:60]}`), which outlives the call: state is shared between the searches of one batch"
     for a in [*([call.func.value] if isinstance(call.func, ast.Attribute) else []), *call.args, *[k.value for k in call.keywords]]:
